@@ -591,6 +591,35 @@ func CrashSite(stderr string) string {
 		}
 	}
 	var frames []string
+	if kind == "stack overflow" {
+		// the top of an overflowing stack is arbitrary; the recursion cycle (library
+		// functions that repeat in the dump) is what identifies the defect
+		cnt := map[string]int{}
+		for _, l := range lines {
+			if strings.HasPrefix(l, "github.com/sdcio/yang-parser/") {
+				fn := l
+				if i := strings.Index(fn, "(0x"); i > 0 {
+					fn = fn[:i]
+				} else if i := strings.LastIndex(fn, "("); i > 0 {
+					fn = fn[:i]
+				}
+				cnt[strings.TrimPrefix(fn, "github.com/sdcio/yang-parser/")]++
+			}
+		}
+		max := 0
+		for _, n := range cnt {
+			if n > max {
+				max = n
+			}
+		}
+		for fn, n := range cnt {
+			if n >= 3 && n*3 >= max && !strings.Contains(fn, "zz_verifsimrt") {
+				frames = append(frames, fn)
+			}
+		}
+		sort.Strings(frames)
+		return kind + "@" + strings.Join(frames, ",")
+	}
 	for _, l := range lines {
 		if strings.HasPrefix(l, "github.com/sdcio/yang-parser/") {
 			fn := l
@@ -1124,8 +1153,19 @@ func writeEvidence(w World, cfg Config, st *Stats, cases int, seed uint64, wall 
 	faults := map[string]int64{}
 	reach := map[string]int64{}
 	other := map[string]int64{}
+	sites := map[string]map[string]int64{}
 	for k, v := range st.Counters {
 		switch {
+		case strings.HasPrefix(k, "sitehits@"), strings.HasPrefix(k, "max:keys@"):
+			name := k[strings.Index(k, "@")+1:]
+			if sites[name] == nil {
+				sites[name] = map[string]int64{}
+			}
+			if strings.HasPrefix(k, "sitehits@") {
+				sites[name]["executions"] = v
+			} else {
+				sites[name]["max_keys"] = v
+			}
 		case strings.HasPrefix(k, "fault:"):
 			faults[strings.TrimPrefix(k, "fault:")] = v
 		case strings.HasPrefix(k, "reach:"):
@@ -1159,6 +1199,16 @@ func writeEvidence(w World, cfg Config, st *Stats, cases int, seed uint64, wall 
 	}
 	for k, v := range d.Extra {
 		cov[k] = v
+	}
+	if len(sites) > 0 {
+		cov["instrumented_sites_reached"] = sites
+		multi := 0
+		for _, m := range sites {
+			if m["max_keys"] >= 2 {
+				multi++
+			}
+		}
+		cov["instrumented_sites_reached_with_2plus_keys"] = multi
 	}
 	if len(st.Samples) == 0 {
 		cov["samples"] = []any{"(no sample recorded)"}
